@@ -12,6 +12,7 @@ from vlib.ds_harness import (
     secure_raw_apdu_frame,
 )
 from vlib.vloop import Deadlock, LoopBudget, new_loop
+from xknx import XKNX
 from xknx.cemi import CEMIFrame, CEMILData, CEMIMessageCode
 from xknx.devices import ExposeSensor, Sensor, Switch
 from xknx.dpt import DPTArray, DPTBinary
@@ -37,6 +38,8 @@ LEVEL_NOTE = (
     "Judged: keyed GA + plain frame => no telegram callback, no Device.process, nothing on the queue / management, key-issue callback "
     "exactly once per registration for T_Data_Group (other TPCI: recorded); every frame handed to the interface for a keyed GA carries "
     "APCI 0x3F1 (read from the octets); handle_raw_cemi returns normally for every injected frame and the consumer task stays alive. "
+    "A last section starts a real XKNX(connection_config=... keyring ...) through KNXIPInterface._start against the scripted gateway (TCP and UDP "
+    "tunnelling) with plain frames to keyed GAs arriving together with the ConnectResponse, right after it and later. "
     "Not judged: what happens to an authenticated frame with malformed content beyond 'does not raise'; unkeyed traffic is a control "
     "(a failing control makes the run inconclusive, not violated)."
 )
@@ -406,6 +409,168 @@ async def _part_noraise(ctx, rng, loop):
         await bench.stop()
 
 
+# ---------------------------------------------------------------------------
+# part 4: the same rules from the very first frame on, through the real interface start with a keyring
+
+_KEYRING = None
+KEYRING_FILE = "test/secure_tests/resources/SecureTest.knxkeys"  # ETS export shipped with the repository, password "test"
+KR_KEYED = (0x0400, 0x0403, 0x0404, 0x0405)  # 0/4/0, 0/4/3, 0/4/4, 0/4/5
+KR_SENDER = 0x4009  # 4.0.9, last valid counter 155806854915
+KR_KEY_0_4_0 = ref.ETS_KEY
+
+
+def _keyring():
+    global _KEYRING
+    if _KEYRING is None:
+        import os
+
+        import xknx as _x
+        from xknx.secure.keyring import sync_load_keyring
+
+        root = os.path.dirname(os.path.dirname(_x.__file__))
+        _KEYRING = sync_load_keyring(os.path.join(root, KEYRING_FILE), "test")
+    return _KEYRING
+
+
+def _interface_scenario(ctx, spec):
+    """Real XKNX.start() (KNXIPInterface._start -> tunnel connect) against the scripted gateway; frames arrive back-to-back with the
+    ConnectResponse, right after it and later."""
+    import asyncio
+
+    from vlib.peers_tunnel import Gateway
+    from xknx.io import ConnectionConfig, ConnectionType, SecureConfig
+
+    loop = new_loop()
+    gw = Gateway(loop)
+    state = {"seq": 0, "tag": 0}
+    injected = []  # (tag, timing, keyed, raw)
+    cb, dev, issues = [], [], []
+
+    def frame(timing):
+        state["tag"] += 1
+        tag = state["tag"]
+        r = ctx.rng.random()
+        keyed = r < 0.75
+        da = ctx.rng.choice(KR_KEYED) if keyed else 0x0A03
+        svc = 0x80 if ctx.rng.random() < 0.6 else 0x40
+        apdu = bytes((0x00, svc, 0xA5, tag & 0xFF, tag >> 8))
+        raw = ref.plain_ldata(apdu, sa=ctx.rng.choice((KR_SENDER, 0x1234)), da=da, group=True)
+        injected.append((tag, timing, keyed, raw))
+        return raw
+
+    def push(raw, delay=None):
+        gw.send_tunnelling_request(state["seq"], raw, delay)
+        state["seq"] += 1
+
+    def burst():
+        for _ in range(spec["nburst"]):
+            push(frame("with-connect-response"))
+        if spec["secured_in_burst"]:
+            push(ref.secure_ldata(KR_KEY_0_4_0, b"\x00\x81", scf=0x10, seq=155806854915 + 1000, sa=KR_SENDER, da=0x0400, group=True))
+            state["secured"] = True
+        for k in range(spec["nright_after"]):
+            push(frame("right-after-connect-response"), delay=0.0 if k == 0 else 0.001 * k)
+
+    gw.after_connect_response = burst
+
+    def confirm(t, kind, info):
+        if kind == "tx" and info.get("type") == "TunnellingRequest":
+            raw = bytes.fromhex(info["cemi"])
+            state.setdefault("out", []).append(raw)
+            loop.call_later(0.01, lambda: push(bytes((0x2E,)) + raw[1:]))
+
+    gw.listeners.append(confirm)
+    result = {}
+
+    async def main():
+        ct = ConnectionType.TUNNELING_TCP if spec["transport"] == "tcp" else ConnectionType.TUNNELING
+        xknx = XKNX(connection_config=ConnectionConfig(connection_type=ct, gateway_ip="10.0.0.2", local_ip="10.0.0.1",
+                                                      secure_config=SecureConfig(keyring=_keyring())))
+        xknx.telegram_queue.register_telegram_received_cb(cb.append)
+        xknx.telegram_queue.register_data_secure_group_key_issue_cb(issues.append)
+        for ga in KR_KEYED + (0x0A03,):
+            xknx.devices.async_add(ProbeSwitch(xknx, f"sw{ga}", group_address=GroupAddress(ga), sync_state=False, log=dev))
+        await xknx.start()
+        for _ in range(spec["nlater"]):
+            push(frame("later"), delay=0.05)
+        await asyncio.sleep(0.5)
+        await xknx.join()
+        for i in range(spec["nout"]):
+            await xknx.telegrams.put(Telegram(destination_address=GroupAddress(KR_KEYED[i % 4]), payload=group_payload(ctx.rng, 1 + i),
+                                              direction=TelegramDirection.OUTGOING))
+        await xknx.join()
+        await asyncio.sleep(0.2)
+        cm = xknx.connection_manager
+        result["processed"] = cm.cemi_count_incoming + cm.cemi_count_incoming_error
+        result["secure_on"] = xknx.cemi_handler.data_secure is not None
+        await xknx.stop()
+
+    try:
+        loop.run(main(), max_vtime=600)
+    except Exception as exc:  # noqa: BLE001 - connect trouble in the harness is never a verdict
+        ctx.inconclusive(f"interface scenario did not finish: {type(exc).__name__}: {exc}")
+        loop.finish()
+        return
+    finally:
+        pass
+    leaked = loop.finish()
+    del leaked
+    ctx.count("interface_scenarios")
+    ctx.count(f"interface_{spec['transport']}")
+    if not result.get("secure_on"):
+        ctx.inconclusive("keyring did not produce a DataSecure instance")
+        return
+
+    def tag_of(t):
+        try:
+            v = t.payload.value.value
+            return (v[1] | (v[2] << 8)) if v[0] == 0xA5 and t.direction == TelegramDirection.INCOMING else None
+        except Exception:  # noqa: BLE001
+            return None
+
+    cb_tags = [tag_of(t) for t in cb]
+    dev_tags = [tag_of(t) for _, t in dev]
+    issue_tags = [tag_of(t) for t in issues]
+    n_ind = len(injected) + (1 if state.get("secured") else 0)
+    all_processed = result["processed"] >= n_ind
+    for tag, timing, keyed, raw in injected:
+        ctx.ev()
+        n_cb, n_dev, n_issue = cb_tags.count(tag), dev_tags.count(tag), issue_tags.count(tag)
+        ctx.distinct(("iface", spec["transport"], timing, keyed, n_cb, n_dev, n_issue))
+        wit = {"spec": spec, "timing": timing, "raw": raw, "telegram_cb": n_cb, "device_process": n_dev, "key_issue_cb": n_issue,
+               "keyring": KEYRING_FILE, "frames_processed": result["processed"], "frames_injected": n_ind}
+        if keyed:
+            ctx.count("interface_plain_to_keyed")
+            ctx.count(f"interface_plain_to_keyed_{timing}")
+            if n_cb or n_dev:
+                ctx.violation(f"interface-start-plain-frame-to-keyed-ga-{timing}-reaches-callbacks-or-devices", wit,
+                              f"plain frame to a keyed GA arriving {timing} ({spec['transport']}) reached {n_cb} telegram callbacks / {n_dev} devices")
+            elif n_issue > 1 or (all_processed and n_issue != 1):
+                ctx.violation(f"interface-start-plain-frame-to-keyed-ga-{timing}-key-issue-callback-{n_issue}-times", wit,
+                              f"plain frame to a keyed GA arriving {timing}: key-issue callback called {n_issue} times")
+            elif n_issue == 1:
+                ctx.count("interface_key_issue_reported_once")
+            else:
+                ctx.count("interface_frame_not_processed")  # dropped below the cEMI layer: nothing to judge
+        elif all_processed and n_cb != 1:
+            ctx.inconclusive(f"control failed: plain frame to unkeyed GA arriving {timing} saw {n_cb} callbacks")
+        elif n_cb == 1:
+            ctx.count("interface_unkeyed_delivered")
+    for raw in state.get("out", []):
+        ctx.ev()
+        dst = int.from_bytes(raw[6:8], "big")
+        if dst in KR_KEYED:
+            ctx.count("interface_outgoing_to_keyed")
+            if apci_of(raw) != 0x3F1:
+                ctx.violation("interface-outgoing-to-keyed-ga-sent-plain", {"spec": spec, "raw": raw},
+                              "telegram to a keyed GA left through the real tunnel as plain frame")
+            else:
+                ctx.count("interface_outgoing_secured")
+    if len(ctx.samples) < 3:
+        ctx.sample({"part": "interface-start", "spec": spec, "injected": len(injected), "telegram_cb": len(cb), "key_issue": len(issues),
+                    "outgoing": len(state.get("out", []))})
+
+
 def _run_async(ctx, loop, coro, what):
     try:
         loop.run(coro, max_vtime=100_000)
@@ -425,6 +590,14 @@ def run(ctx):
     ctx.require("plain_to_keyed", "plain_to_keyed_group", "key_issue_reported_once", "unkeyed_delivered", "outgoing_to_keyed", "outgoing_secured",
                 "outgoing_decrypts_at_peer", "authenticated_frames", "inner_empty", "inner_one-octet", "inner_malformed", "inner_unsupported",
                 "inner_valid", "inner_valid_delivered", "hostile_frames", "returned_normally", "consumer_alive_after_corpus")
+    ctx.require("interface_scenarios", "interface_tcp", "interface_udp", "interface_plain_to_keyed_with-connect-response",
+                "interface_plain_to_keyed_right-after-connect-response", "interface_plain_to_keyed_later",
+                "interface_key_issue_reported_once", "interface_unkeyed_delivered", "interface_outgoing_secured")
+    for i in range(ctx.scale(24, 800)):
+        spec = {"transport": ("tcp", "udp")[i % 2], "nburst": 1 + (i // 2) % 3, "nright_after": (i // 6) % 3, "nlater": 1 + i % 2,
+                "nout": 2, "secured_in_burst": i % 4 == 1}
+        if ctx.mine(i):
+            _interface_scenario(ctx, spec)
     loop = new_loop()
     loop.max_iterations = 50_000_000
     try:
